@@ -32,7 +32,8 @@ class A(Adapter):
 
     def configs(self):
         base = [cfg("r10c10", True, gen="random", r=10, c=10, tl=None), cfg("r5c9", True, gen="random", r=5, c=9, tl=None),
-                cfg("toy", c02=True, gen="toy", r=5, c=5, tl=None), cfg("r9c5", gen="random", r=9, c=5, tl=None), cfg("r3c3", gen="random", r=3, c=3, tl=None)]
+                cfg("toy", c02=True, gen="toy", r=5, c=5, tl=None), cfg("r9c5", gen="random", r=9, c=5, tl=None), cfg("r3c3", gen="random", r=3, c=3, tl=None),
+                cfg("r7c4", True, gen="random", r=7, c=4, tl=None)]  # tall as well as wide (r5c9): a swapped bound shows on one orientation only
         out = cross_tl(base, [None, 1, 2, 3, 7])
         # a user-written level in which the agent is walled in (no action available): only the properties that do not depend
         # on the documented list of episode endings look at it (the env ends such an episode, its docstring does not say so)
